@@ -686,26 +686,31 @@ fn lemma_popcount_block_o9() {
 // @h props=C01,C03 tier=quick geom=4 panics=C03 mem=C18 unwind=C21
 #[kani::proof]
 #[kani::unwind(10)]
+#[kani::stub(core::hint::spin_loop, crate::verif_support::spin_loop_model)]
 fn bi_set_first_zeros_o0() {
     int_set_first_zeros_body(0, false)
 }
 #[kani::proof]
 #[kani::unwind(10)]
+#[kani::stub(core::hint::spin_loop, crate::verif_support::spin_loop_model)]
 fn bi_set_first_zeros_o3() {
     int_set_first_zeros_body(3, false)
 }
 #[kani::proof]
 #[kani::unwind(10)]
+#[kani::stub(core::hint::spin_loop, crate::verif_support::spin_loop_model)]
 fn bi_set_first_zeros_o6() {
     int_set_first_zeros_body(6, false)
 }
 #[kani::proof]
 #[kani::unwind(10)]
+#[kani::stub(core::hint::spin_loop, crate::verif_support::spin_loop_model)]
 fn bi_set_first_zeros_o7() {
     int_set_first_zeros_body(7, false)
 }
 #[kani::proof]
 #[kani::unwind(10)]
+#[kani::stub(core::hint::spin_loop, crate::verif_support::spin_loop_model)]
 fn bi_set_first_zeros_o8() {
     int_set_first_zeros_body(8, false)
 }
@@ -713,26 +718,31 @@ fn bi_set_first_zeros_o8() {
 // @h props=C01,C03 tier=thorough geom=4 panics=C03 mem=C18 unwind=C21
 #[kani::proof]
 #[kani::unwind(10)]
+#[kani::stub(core::hint::spin_loop, crate::verif_support::spin_loop_model)]
 fn bi_set_first_zeros_o1() {
     int_set_first_zeros_body(1, false)
 }
 #[kani::proof]
 #[kani::unwind(10)]
+#[kani::stub(core::hint::spin_loop, crate::verif_support::spin_loop_model)]
 fn bi_set_first_zeros_o2() {
     int_set_first_zeros_body(2, false)
 }
 #[kani::proof]
 #[kani::unwind(10)]
+#[kani::stub(core::hint::spin_loop, crate::verif_support::spin_loop_model)]
 fn bi_set_first_zeros_o4() {
     int_set_first_zeros_body(4, false)
 }
 #[kani::proof]
 #[kani::unwind(10)]
+#[kani::stub(core::hint::spin_loop, crate::verif_support::spin_loop_model)]
 fn bi_set_first_zeros_o5() {
     int_set_first_zeros_body(5, false)
 }
 #[kani::proof]
 #[kani::unwind(10)]
+#[kani::stub(core::hint::spin_loop, crate::verif_support::spin_loop_model)]
 fn bi_set_first_zeros_o9() {
     int_set_first_zeros_body(9, false)
 }
@@ -740,51 +750,61 @@ fn bi_set_first_zeros_o9() {
 // @h props=C01,C03 tier=quick geom=4 panics=C03 mem=C18 unwind=C21
 #[kani::proof]
 #[kani::unwind(10)]
+#[kani::stub(core::hint::spin_loop, crate::verif_support::spin_loop_model)]
 fn bi_toggle_alloc_o0() {
     int_toggle_body(0, false, false)
 }
 #[kani::proof]
 #[kani::unwind(10)]
+#[kani::stub(core::hint::spin_loop, crate::verif_support::spin_loop_model)]
 fn bi_toggle_alloc_o1() {
     int_toggle_body(1, false, false)
 }
 #[kani::proof]
 #[kani::unwind(10)]
+#[kani::stub(core::hint::spin_loop, crate::verif_support::spin_loop_model)]
 fn bi_toggle_alloc_o2() {
     int_toggle_body(2, false, false)
 }
 #[kani::proof]
 #[kani::unwind(10)]
+#[kani::stub(core::hint::spin_loop, crate::verif_support::spin_loop_model)]
 fn bi_toggle_alloc_o3() {
     int_toggle_body(3, false, false)
 }
 #[kani::proof]
 #[kani::unwind(10)]
+#[kani::stub(core::hint::spin_loop, crate::verif_support::spin_loop_model)]
 fn bi_toggle_alloc_o4() {
     int_toggle_body(4, false, false)
 }
 #[kani::proof]
 #[kani::unwind(10)]
+#[kani::stub(core::hint::spin_loop, crate::verif_support::spin_loop_model)]
 fn bi_toggle_alloc_o5() {
     int_toggle_body(5, false, false)
 }
 #[kani::proof]
 #[kani::unwind(10)]
+#[kani::stub(core::hint::spin_loop, crate::verif_support::spin_loop_model)]
 fn bi_toggle_alloc_o6() {
     int_toggle_body(6, false, false)
 }
 #[kani::proof]
 #[kani::unwind(10)]
+#[kani::stub(core::hint::spin_loop, crate::verif_support::spin_loop_model)]
 fn bi_toggle_alloc_o7() {
     int_toggle_body(7, false, false)
 }
 #[kani::proof]
 #[kani::unwind(10)]
+#[kani::stub(core::hint::spin_loop, crate::verif_support::spin_loop_model)]
 fn bi_toggle_alloc_o8() {
     int_toggle_body(8, false, false)
 }
 #[kani::proof]
 #[kani::unwind(10)]
+#[kani::stub(core::hint::spin_loop, crate::verif_support::spin_loop_model)]
 fn bi_toggle_alloc_o9() {
     int_toggle_body(9, false, false)
 }
@@ -792,51 +812,61 @@ fn bi_toggle_alloc_o9() {
 // @h props=C01,C03 tier=quick geom=4 panics=C03 mem=C18 unwind=C21
 #[kani::proof]
 #[kani::unwind(10)]
+#[kani::stub(core::hint::spin_loop, crate::verif_support::spin_loop_model)]
 fn bi_toggle_free_o0() {
     int_toggle_body(0, true, false)
 }
 #[kani::proof]
 #[kani::unwind(10)]
+#[kani::stub(core::hint::spin_loop, crate::verif_support::spin_loop_model)]
 fn bi_toggle_free_o1() {
     int_toggle_body(1, true, false)
 }
 #[kani::proof]
 #[kani::unwind(10)]
+#[kani::stub(core::hint::spin_loop, crate::verif_support::spin_loop_model)]
 fn bi_toggle_free_o2() {
     int_toggle_body(2, true, false)
 }
 #[kani::proof]
 #[kani::unwind(10)]
+#[kani::stub(core::hint::spin_loop, crate::verif_support::spin_loop_model)]
 fn bi_toggle_free_o3() {
     int_toggle_body(3, true, false)
 }
 #[kani::proof]
 #[kani::unwind(10)]
+#[kani::stub(core::hint::spin_loop, crate::verif_support::spin_loop_model)]
 fn bi_toggle_free_o4() {
     int_toggle_body(4, true, false)
 }
 #[kani::proof]
 #[kani::unwind(10)]
+#[kani::stub(core::hint::spin_loop, crate::verif_support::spin_loop_model)]
 fn bi_toggle_free_o5() {
     int_toggle_body(5, true, false)
 }
 #[kani::proof]
 #[kani::unwind(10)]
+#[kani::stub(core::hint::spin_loop, crate::verif_support::spin_loop_model)]
 fn bi_toggle_free_o6() {
     int_toggle_body(6, true, false)
 }
 #[kani::proof]
 #[kani::unwind(10)]
+#[kani::stub(core::hint::spin_loop, crate::verif_support::spin_loop_model)]
 fn bi_toggle_free_o7() {
     int_toggle_body(7, true, false)
 }
 #[kani::proof]
 #[kani::unwind(10)]
+#[kani::stub(core::hint::spin_loop, crate::verif_support::spin_loop_model)]
 fn bi_toggle_free_o8() {
     int_toggle_body(8, true, false)
 }
 #[kani::proof]
 #[kani::unwind(10)]
+#[kani::stub(core::hint::spin_loop, crate::verif_support::spin_loop_model)]
 fn bi_toggle_free_o9() {
     int_toggle_body(9, true, false)
 }
@@ -844,11 +874,13 @@ fn bi_toggle_free_o9() {
 // @h props=C21 tier=quick geom=4 panics=C03 mem=C18 unwind=C21
 #[kani::proof]
 #[kani::unwind(10)]
+#[kani::stub(core::hint::spin_loop, crate::verif_support::spin_loop_model)]
 fn bf_set_first_zeros_o3() {
     int_set_first_zeros_body(3, true)
 }
 #[kani::proof]
 #[kani::unwind(10)]
+#[kani::stub(core::hint::spin_loop, crate::verif_support::spin_loop_model)]
 fn bf_set_first_zeros_o7() {
     int_set_first_zeros_body(7, true)
 }
@@ -856,16 +888,19 @@ fn bf_set_first_zeros_o7() {
 // @h props=C21 tier=thorough geom=4 panics=C03 mem=C18 unwind=C21
 #[kani::proof]
 #[kani::unwind(10)]
+#[kani::stub(core::hint::spin_loop, crate::verif_support::spin_loop_model)]
 fn bf_set_first_zeros_o0() {
     int_set_first_zeros_body(0, true)
 }
 #[kani::proof]
 #[kani::unwind(10)]
+#[kani::stub(core::hint::spin_loop, crate::verif_support::spin_loop_model)]
 fn bf_set_first_zeros_o6() {
     int_set_first_zeros_body(6, true)
 }
 #[kani::proof]
 #[kani::unwind(10)]
+#[kani::stub(core::hint::spin_loop, crate::verif_support::spin_loop_model)]
 fn bf_set_first_zeros_o8() {
     int_set_first_zeros_body(8, true)
 }
@@ -873,16 +908,19 @@ fn bf_set_first_zeros_o8() {
 // @h props=C21 tier=quick geom=4 panics=C03 mem=C18 unwind=C21
 #[kani::proof]
 #[kani::unwind(10)]
+#[kani::stub(core::hint::spin_loop, crate::verif_support::spin_loop_model)]
 fn bf_toggle_alloc_o0() {
     int_toggle_body(0, false, true)
 }
 #[kani::proof]
 #[kani::unwind(10)]
+#[kani::stub(core::hint::spin_loop, crate::verif_support::spin_loop_model)]
 fn bf_toggle_alloc_o3() {
     int_toggle_body(3, false, true)
 }
 #[kani::proof]
 #[kani::unwind(10)]
+#[kani::stub(core::hint::spin_loop, crate::verif_support::spin_loop_model)]
 fn bf_toggle_alloc_o7() {
     int_toggle_body(7, false, true)
 }
@@ -890,16 +928,19 @@ fn bf_toggle_alloc_o7() {
 // @h props=C21 tier=quick geom=4 panics=C03 mem=C18 unwind=C21
 #[kani::proof]
 #[kani::unwind(10)]
+#[kani::stub(core::hint::spin_loop, crate::verif_support::spin_loop_model)]
 fn bf_toggle_free_o0() {
     int_toggle_body(0, true, true)
 }
 #[kani::proof]
 #[kani::unwind(10)]
+#[kani::stub(core::hint::spin_loop, crate::verif_support::spin_loop_model)]
 fn bf_toggle_free_o3() {
     int_toggle_body(3, true, true)
 }
 #[kani::proof]
 #[kani::unwind(10)]
+#[kani::stub(core::hint::spin_loop, crate::verif_support::spin_loop_model)]
 fn bf_toggle_free_o7() {
     int_toggle_body(7, true, true)
 }
